@@ -1329,8 +1329,36 @@ class Body:
                 yield from ast.walk(st)
                 g = self.guard_fact(st)
                 if g is not None:
-                    self.facts.add(g)
+                    base_facts.add(g)
+        # branch-scoped facts:  A if R.x is None else B  /  B if R.x is not None else A  and the statement forms with an
+        # else branch: inside B the child R.x is present (the same fact a dominating `if R.x is None: return` gives)
+        scoped = {}
+
+        def none_test(t):
+            """(fact, True when the test says IS None) or None"""
+            if isinstance(t, ast.Compare) and len(t.ops) == 1 and isinstance(t.ops[0], (ast.Is, ast.IsNot)) \
+                    and isinstance(t.comparators[0], ast.Constant) and t.comparators[0].value is None \
+                    and isinstance(t.left, ast.Attribute) and isinstance(t.left.value, ast.Attribute) \
+                    and self.is_self(t.left.value.value):
+                if self.attr_effect(t.left.value.value, t.left.value.attr) is PURE:
+                    return (ast.unparse(t.left.value), t.left.attr), isinstance(t.ops[0], ast.Is)
+            return None
+
+        for nd in ast.walk(fn):
+            if isinstance(nd, (ast.IfExp, ast.If)):
+                r = none_test(nd.test)
+                if r is None:
+                    continue
+                fact, is_none = r
+                present = nd.orelse if is_none else nd.body
+                for sub in (present if isinstance(present, list) else [present]):
+                    for inner in ast.walk(sub):
+                        scoped.setdefault(id(inner), set()).add(fact)
+        base_facts = self.facts
         for node in ordered_nodes():
+            extra = scoped.get(id(node))
+            # facts of dominating guards accumulate in base_facts; branch facts hold for this node only
+            self.facts = base_facts | extra if extra else base_facts
             if isinstance(node, ast.Call):
                 f = node.func
                 kw = bool(node.keywords)
@@ -1404,6 +1432,7 @@ class Body:
                 if self.type_of(base) == PY and not isinstance(base, ast.Attribute):
                     continue
                 eff = eff.join(creates("item assignment on %s" % ast.unparse(base)[:30]))
+        self.facts = base_facts
         return eff
 
 
